@@ -19,6 +19,10 @@ def main():
         d = json.load(open(a.replay))
         print(json.dumps(d, indent=1)[:6000])
         return 0
+    import logging
+    logging.disable(logging.CRITICAL)
+    import warnings
+    warnings.simplefilter("ignore")
     from pyvc import runner
     pm = importlib.import_module(f"props.{a.prop}")
     try:
